@@ -5,12 +5,12 @@ Kinds == {"http", "socks", "quic"}
 VARIABLES tab
 TInit == /\ CInit
          /\ tab \in ({<<"neg", x>> : x \in NegCases} \cup {<<"ltls", k, p, c>> : k \in Kinds, p \in Policies, c \in Presented}
-                     \cup {<<"ctls", k, s, c>> : k \in Kinds, s \in ConnSettings, c \in ServerCerts})
+                     \cup {<<"ctls", k, s, c, n>> : k \in Kinds, s \in ConnSettings, c \in ServerCerts, n \in ConnNames})
 TNext == UNCHANGED <<cvars, tab>>
 EmitTab == PrintT(<<"CASE", CASE tab[1] = "neg" -> ToJson([kind |-> "neg", offer |-> tab[2][1], cred |-> tab[2][2], cmd |-> tab[2][3],
                                                          routed_required |-> RoutedCmd(tab[2][1], TRUE, tab[2][2], tab[2][3]),
                                                          routed_optional |-> RoutedCmd(tab[2][1], FALSE, tab[2][2], tab[2][3]),
                                                          method_required |-> Select(tab[2][1], TRUE), method_optional |-> Select(tab[2][1], FALSE)])
                             [] tab[1] = "ltls" -> ToJson([kind |-> "ltls", listener |-> tab[2], policy |-> tab[3], cert |-> tab[4], accept |-> ListenerAccepts(tab[3], tab[4])])
-                            [] tab[1] = "ctls" -> ToJson([kind |-> "ctls", connector |-> tab[2], setting |-> tab[3], cert |-> tab[4], establish |-> ConnectorEstablishes(tab[3], tab[4])])>>)
+                            [] tab[1] = "ctls" -> ToJson([kind |-> "ctls", connector |-> tab[2], setting |-> tab[3], cert |-> tab[4], name |-> tab[5], establish |-> ConnectorEstablishes(tab[3], tab[4])])>>)
 =============================================================================
